@@ -227,3 +227,33 @@ func dbgSER(c *Ctx, r *Report) {
 	}
 	r.ok("dbg", "x", "")
 }
+
+func init() { register("DBGREFL", "other", dbgREFL) }
+
+func dbgREFL(c *Ctx, r *Report) {
+	for _, which := range []string{"copyBlocks", "copyBlock"} {
+		m := c.reflModelOf(which)
+		fmt.Printf("== %s: %d paths, undecided %v\n", which, len(m.Paths), m.Undecided)
+		for i, p := range m.Paths {
+			var ev []string
+			for _, e := range p.Events {
+				ok := "ok"
+				if !e.OK {
+					ok = "BAD"
+				}
+				ev = append(ev, fmt.Sprintf("%s:%s", e.Op, ok))
+			}
+			fmt.Printf(" path %d ret=%s events=%v\n", i, p.Ret, ev)
+			for _, s := range p.Setters {
+				fmt.Printf("    setter key=%s x=%s lookups=%v field=%s result=%s\n", s.Key, s.X, s.Lookups, s.Field, s.Result)
+			}
+			var fs []string
+			for k, v := range p.Facts {
+				fs = append(fs, fmt.Sprintf("%s=%v", k, v))
+			}
+			sort.Strings(fs)
+			fmt.Printf("    facts %v\n    failures %v pending %v stores %v marks %v problems %v nilAt %d\n", fs, p.Failures, p.Pending, p.TableStores, p.BodyMarks, p.Problems, p.NilBindingAt)
+		}
+	}
+	r.ok("dbg", "x", "")
+}
